@@ -113,9 +113,10 @@ structure Client where
   uuid : UUID := zeroUUID  -- `Client.UUID`
 deriving Repr, DecidableEq
 
-/-- `join`: handshake, then the login hello of `joinLogin` -/
-def clientJoinStart (authName host : Bytes) (port : Nat) : List Act :=
-  [.send (.handshake protocolVersion host port 2), .send (.loginHello authName zeroUUID)]
+/-- `join`: handshake, then the login hello of `joinLogin`. The hello carries `Client.UUID` as the client claims it:
+    the parsed `Auth.UUID`, or all zero when `Auth.UUID` is empty -/
+def clientJoinStart (authName : Bytes) (claimed : UUID) (host : Bytes) (port : Nat) : List Act :=
+  [.send (.handshake protocolVersion host port 2), .send (.loginHello authName claimed)]
 
 /-- `pingAndList`: handshake with intention 1, then the status request -/
 def clientPingStart (host : Bytes) (port : Nat) : List Act :=
@@ -277,8 +278,9 @@ def startWith (phase : CPhase) (acts : List Act) : Sys :=
   { client := { phase := phase, thr := thr }, server := { phase := .handshake }, c2s := out, c2sLog := out }
 
 /-- the system right after `join` wrote its first two packets -/
-def initJoin (authName host : Bytes) (port : Nat) : Sys :=
-  startWith .login (clientJoinStart authName host port)
+def initJoin (authName : Bytes) (claimed : UUID) (host : Bytes) (port : Nat) : Sys :=
+  let s := startWith .login (clientJoinStart authName claimed host port)
+  { s with client := { s.client with uuid := claimed } }
 
 /-- the system right after `pingAndList` wrote its first two packets -/
 def initPing (host : Bytes) (port : Nat) (payload : BitVec 64) : Sys :=
